@@ -18,6 +18,95 @@ from ..loader import dotted, norm
 from .c04 import length_obligations
 
 
+def _sidecars_by_evaluation(ctx, rep, ge, he) -> bool:
+    """handleeaext('/sel', vfs) evaluated with two configured extensions and scripted sidecar files: each configured block
+    that is not set yet gets the text of <selector><extension>, read in text mode, its lines right-stripped and joined by
+    newlines; a block that is already set is not read again.  True when the evaluation decided."""
+    from ..paths import Const as _C, Walker as _W
+
+    prog = ctx.prog
+    if len(he.params) < 3:
+        return False
+    table = {".abstract": "ABSTRACT", ".keywords": "KEYWORDS"}
+    filelines = ["first line  \n", "\tsecond line\r\n", "last"]
+    wanttext = "first line\n\tsecond line\nlast"
+    all_problems = []
+    for preset in ({}, {"ABSTRACT": "set by a link file"}):
+        holder = {}
+
+        def cv(call, target, st, _preset=preset):
+            f = call.func
+            w = holder["w"]
+            a = w.cur_args or []
+            kws = w.cur_kws or {}
+            d = dotted(f) or ""
+            if d == "eval" or (isinstance(f, ast.Attribute) and f.attr == "get" and "config" in norm(f.value)):
+                return _C(dict(table)) if d == "eval" else _C("<configured table>")
+            if isinstance(f, ast.Attribute) and f.attr in ("isfile", "exists") and a and a[0].kind == "const":
+                return _C(True)
+            if isinstance(f, ast.Attribute) and f.attr == "open" and a and a[0].kind == "const" and not (dotted(f.value) or "").startswith("os"):
+                mode = a[1].value if len(a) > 1 and a[1].kind == "const" else (kws["mode"].value if "mode" in kws and kws["mode"].kind == "const" else "r")
+                prev = st.facts.get("__opened")
+                prev = prev.value if prev is not None and prev.kind == "const" else ()
+                st.facts["__opened"] = _C(prev + ((a[0].value, mode),))
+                return _C("<file " + str(a[0].value) + ">")
+            if isinstance(f, ast.Attribute) and w.cur_recv is not None and w.cur_recv.kind == "const" and str(w.cur_recv.value).startswith("<file "):
+                if f.attr == "readlines":
+                    return _C(list(filelines))
+                if f.attr == "read":
+                    return _C("".join(filelines))
+                if f.attr == "close":
+                    return _C(None)
+            if isinstance(f, ast.Attribute) and f.attr == "setea" and dotted(f.value) == "self" and len(a) == 2:
+                prev = st.facts.get("__set")
+                prev = prev.value if prev is not None and prev.kind == "const" else ()
+                st.facts["__set"] = _C(prev + ((a[0].value if a[0].kind == "const" else None, a[1].value if a[1].kind == "const" else None),))
+                return _C(None)
+            if isinstance(f, ast.Attribute) and f.attr in ("getea",) and dotted(f.value) == "self" and a and a[0].kind == "const":
+                return _C(_preset.get(a[0].value))
+            if isinstance(f, ast.Attribute) and f.attr == "geteadict" and dotted(f.value) == "self":
+                return _C(dict(_preset))
+            if d.split(".")[-1] == "VFS_Real":
+                return _C("<vfs>")
+            return None
+
+        facts = {"self.ea": _C(dict(preset))}
+        w = _W(prog, ctx.resolver, call_value=cv, exact_loops=True, unroll=6, assumptions=facts, sticky=set(facts),
+               inline=lambda fn, t, d_: d_ < 3 and t.bound_cls is not None and fn.name not in ("setea", "getea", "geteadict"))
+        holder["w"] = w
+        try:
+            paths = w.run(he, ge, env={he.params[1]: _C("/sel"), he.params[2]: _C("<vfs>")}, facts={**facts, "eaexts": _C(None)})
+        except Exception:
+            return False
+        outs = set()
+        for p in paths:
+            if p.kind == "raise":
+                return False
+            st_ = p.state.facts
+            op = st_.get("__opened")
+            se = st_.get("__set")
+            outs.add((op.value if op is not None and op.kind == "const" else (), se.value if se is not None and se.kind == "const" else ()))
+        if len(outs) != 1:
+            return False
+        opened, setea = next(iter(outs))
+        if any(x is None for pair in setea for x in pair):
+            return False
+        want_blocks = {b for b in table.values() if b not in preset}
+        want_open = {("/sel" + e, "r") for e, b in table.items() if b not in preset}
+        if set(opened) != want_open:
+            all_problems.append(f"with the blocks {sorted(preset)} already set, the files opened are {sorted(opened)} instead of {sorted(want_open)} "
+                                "(one text-mode read of <selector><extension> per configured block that is still unset)")
+        got = dict(setea)
+        if set(got) != want_blocks or len(setea) != len(got):
+            all_problems.append(f"the blocks set from sidecar files are {sorted(got)} instead of {sorted(want_blocks)}")
+        for b, text in got.items():
+            if text != wanttext:
+                all_problems.append(f"a sidecar with the lines {filelines!r} becomes the block text {text!r} instead of {wanttext!r}")
+                break
+    rep.add("R15e", f"{he.qualname}: sidecar lines become the block's lines", not all_problems, ctx.where(he), "; ".join(all_problems[:2]), key="R15e|handleeaext")
+    return True
+
+
 def protocol_independence_obligations(ctx, rep, rule):
     """In everything a handler does to describe an item (handler tests, getentry, prepare, getdirlist and the self-methods
     and entry methods they call) the protocol object is only handed on - to nested handlers, exceptions - never asked.
@@ -183,6 +272,8 @@ def check(ctx, rep):
     he = prog.resolve_method(ge, "handleeaext") if ge else None
     if he is None:
         rep.fail("R15e", "GopherEntry.handleeaext", detail="sidecar reader not found")
+    elif _sidecars_by_evaluation(ctx, rep, ge, he):
+        pass
     else:
         problems = []
         loops = [n for n in ast.walk(he.node) if isinstance(n, ast.For) and "eaexts" in norm(n.iter)]
